@@ -427,6 +427,11 @@ static void run_elem(const char *en) {
     run_vec<amc::vector<E, AStd<E>, uint8_t> >((n + "/vector<u8>").c_str(), 255, false, sz, false);
     run_vec<amc::SmallVector<E, 250, AAmc<E>, uint8_t> >((n + "/SmallVector<250,u8>").c_str(), 255, false, sz, false);
     run_vec<amc::SmallVector<E, 4, ARe<E>, uint8_t> >((n + "/SmallVector<4,u8>").c_str(), 255, false, sz, true);
+    // an inline buffer that is partially / exactly full, far below the limit: only a huge count reaches it
+    std::vector<long> szin;
+    szin.push_back(7);
+    szin.push_back(8);
+    run_vec<amc::SmallVector<E, 8, AStd<E>, uint8_t> >((n + "/SmallVector<8,u8>(inline)").c_str(), 255, false, szin, false);
   }
   {
     std::vector<long> sz;
@@ -445,6 +450,8 @@ static void run_elem(const char *en) {
   wide_count_cases<amc::SmallVector<E, 4, ARe<E>, uint32_t> >((n + "/SmallVector<4,u32>").c_str());
   wide_count_cases<amc::SmallVector<E, 16, AAmc<E>, int32_t> >((n + "/SmallVector<16,i32>").c_str());
   wide_count_cases<amc::vector<E, AStd<E>, uint64_t> >((n + "/vector<u64>").c_str());
+  swap2_limit_cases<amc::vector<E, AStd<E>, int8_t>, amc::vector<E, AStd<E>, uint8_t> >((n + "/vector<i8> x vector<u8>").c_str(), false);
+  swap2_limit_cases<amc::SmallVector<E, 3, ARe<E>, int16_t>, amc::vector<E, ARe<E>, uint16_t> >((n + "/SmallVector<3,i16> x vector<u16>").c_str(), false);
   swap2_limit_cases<amc::vector<E, AStd<E>, uint8_t>, amc::vector<E, AStd<E>, uint32_t> >((n + "/vector<u8> x vector<u32>").c_str(), false);
   swap2_limit_cases<amc::SmallVector<E, 4, AStd<E>, int8_t>, amc::SmallVector<E, 2, AStd<E>, uint16_t> >((n + "/SmallVector<4,i8> x SmallVector<2,u16>").c_str(), false);
   swap2_limit_cases<amc::vector<E, ARe<E>, uint8_t>, amc::SmallVector<E, 3, ARe<E>, uint8_t> >((n + "/vector<u8> x SmallVector<3,u8>").c_str(), false);
